@@ -14,6 +14,7 @@ mod c12;
 mod c13;
 mod c14;
 mod c15;
+mod c16;
 mod dec;
 mod c17;
 mod fmt;
@@ -158,6 +159,7 @@ fn main() {
         "c13" => c13::run(&mut ctx, replay_lines.as_deref()),
         "c14" => c14::run(&mut ctx, replay_lines.as_deref()),
         "c15" => c15::run(&mut ctx, replay_lines.as_deref()),
+        "c16" => c16::run(&mut ctx, replay_lines.as_deref()),
         "c17" => c17::run(&mut ctx, replay_lines.as_deref()),
         _ => {
             eprintln!("unknown property {}", prop);
